@@ -314,6 +314,8 @@ class Interp:
         v = self.std_model(fn, n, env)
         if v is not NOT_HANDLED:
             return v
+        if k in ('CXXConstructExpr', 'CXXTemporaryObjectExpr') and (n.get('cls') or '').startswith('std::function') and len(n.get('args', [])) == 1:
+            return self.eval(fn, S[n['args'][0]], env)      # std::function wrapping a lambda: the lambda value itself
         if k == 'CXXOperatorCallExpr' and n.get('op') == '()' and n.get('args'):
             lam = self.eval(fn, S[n['args'][0]], env)
             if isinstance(lam, tuple) and lam and lam[0] == 'lambda':
